@@ -1,7 +1,8 @@
 CONSTANTS
   Dev = {}
   Alphabet <- AlphaNum
-  MaxLen = 6
+  MaxLen = 7
+  Prune = TRUE
   DepthProbe = {0, 256}
 INIT Init
 NEXT Next
